@@ -190,7 +190,7 @@ def stepD (d : DState) : List String → DState × String
     -- the conclusion of theorem `progress`, evaluated on the model, for histories the relation accepted
     let v := d.view
     let owes := (v.v3 && (v.lsOwed || !v.reqs.isEmpty || v.auth.owed)) || (canWelcome v && decide (v.stage < 7))
-    (d, s!"acc={d.accepted} rej={d.rejected} after={if d.st.afterConnect then 1 else 0} aborted={if v.aborted then 1 else 0} owes={if owes then 1 else 0}")
+    (d, s!"acc={d.accepted} rej={d.rejected} after={if d.st.afterConnect then 1 else 0} aborted={if v.aborted then 1 else 0} owes={if owes then 1 else 0} reopened={if v.reopened then 1 else 0}")
   | ["dstart"] =>
     match d.cfg with
     | some cfg => let s := drvStart cfg d.st; ({ d with st := s }, observeD s)
